@@ -104,7 +104,8 @@ func QueueModel(cap int, init []int) porcupine.Model {
 
 const Infinity = int64(1) << 60
 
-// CheckLin runs porcupine with the design's timeout; Unknown is inconclusive, never a verdict.
+// CheckLin runs porcupine with a 2 s timeout (linearizability checking is NP-hard; histories are
+// kept short by the generators); Unknown is inconclusive, never a verdict.
 func CheckLin(m porcupine.Model, ops []porcupine.Operation) porcupine.CheckResult {
-	return porcupine.CheckOperationsTimeout(m, ops, 10*time.Second)
+	return porcupine.CheckOperationsTimeout(m, ops, 2*time.Second)
 }
